@@ -185,7 +185,7 @@ def fde_part(run, np):
         run.case(json.dumps(case), part="fdepsd")
         try:
             out = fdepsd.fdepsd(sig, sr, freq, 12.0, parallel="no", **kw)
-            out2 = fdepsd.fdepsd(3.0 * sig, sr, freq, 12.0, parallel="no", **kw)
+            out2 = fdepsd.fdepsd(4.0 * sig, sr, freq, 12.0, parallel="no", **kw)     # a power of two: scaling is exact in binary64, no bin-edge flips
         except Exception as ex:
             run.violation("fdepsd raised %r" % ex, case, {"fn": "fdepsd"})
             continue
@@ -212,7 +212,7 @@ def fde_part(run, np):
             #  is stated for the unscaled indicator, so the clause is checked for 'absacce' only)
             if kw["resp"] == "absacce" and not np.allclose(lhs, rhs, rtol=1e-9, atol=0):
                 run.violation("test variance does not reproduce the signal damage (var_test^(b/2) = di_sig/di_test_part), b=%d" % b, case, {"fn": "fdepsd"})
-        if not np.allclose(out2.psd.values, 9.0 * out.psd.values, rtol=1e-8, atol=0):
+        if not np.allclose(out2.psd.values, 16.0 * out.psd.values, rtol=1e-8, atol=0):
             run.violation("PSD outputs do not scale with the square of the input amplitude", case, {"fn": "fdepsd"})
     # integer facts by TLC trace validation
     fd, path = tempfile.mkstemp(suffix=".ndjson", prefix="verif_fde_")
